@@ -192,3 +192,31 @@ package proto
 //@   invariant 0 <= p.Start && p.Start <= p.End && p.End <= len(c.Buf)
 //@   invariant forall k in 0..i :: 0 <= c.Pos[k].Start && c.Pos[k].Start <= c.Pos[k].End && c.Pos[k].End <= p.End
 //@   invariant r.failed == old(r.failed) && old(r.pos) <= r.pos && r.pos <= r.end
+
+// ---------------------------------------------------------------------------
+// LowCardinality(T): dictionary (index column) + keys + materialised Values
+
+//@ valid (c *ColLowCardinality): c != nil ==> c.index != nil
+
+//@ contract fillValues(values, keys) (out) props(C01,C06)
+//@   ensures len(out) == len(values) + len(keys) {length}
+//@ loop 0 (values, rangeindex)
+//@   invariant -1 <= rangeindex && rangeindex < len(keys) && len(values) == old(len(values)) + rangeindex + 1
+
+//@ contract (c ColLowCardinality) Rows() (n) props(C01,C06,C16)
+//@   ensures n == len(c.Values)
+//@ contract (c ColLowCardinality) Row(i) (v) props(C06)
+//@   requires 0 <= i && i < len(c.Values)
+
+//@ -- DecodeColumn into a reset column: on success exactly `rows` values were materialised, each
+//@ -- through a key that was range-checked against the dictionary size (so Row(i) is panic-free)
+//@ contract (c *ColLowCardinality) DecodeColumn(r, rows) (err) props(C01,C06,C07,C16)
+//@   requires c != nil && r != nil && 0 <= rows && rows <= maxRowsInBLock
+//@   requires c.index.nrows == 0 && len(c.Values) == 0 && len(c.keys) == 0 && len(c.keys8) == 0 && len(c.keys16) == 0 && len(c.keys32) == 0 && len(c.keys64) == 0
+//@   modifies c.key, c.keys, c.keys8, c.keys16, c.keys32, c.keys64, c.Values, c.index.nrows, r.pos, r.failed, r.b.Buf
+//@   ensures err == nil ==> len(c.Values) == rows {rows}
+//@   ensures err == nil ==> r.failed == old(r.failed)
+//@   ensures old(r.pos) <= r.pos && r.pos <= r.end
+//@ loop 0 (rangeindex)
+//@   modifies c.Values
+//@   invariant -1 <= rangeindex && rangeindex < len(c.keys) && len(c.Values) == rangeindex + 1
